@@ -76,6 +76,7 @@ class Exec:
         self.pc_len = 0; self.trace_decisions = []
         self.notes = {}
         self.crate = h.crate
+        self.known = {}; self.keep = []
 
     # ------------------------------------------------------------------ solver interface
     def _check(self, *extra):
@@ -103,21 +104,28 @@ class Exec:
         """python bool for a possibly symbolic condition; forks when both sides are feasible."""
         cond = simp(cond)
         if isinstance(cond, bool): return cond
+        neg = False
+        while z3.is_not(cond):
+            cond = cond.arg(0); neg = not neg
+        key = cond.get_id()
+        hit = self.known.get(key)
+        if hit is not None: return hit != neg
         if self.dpos < len(self.decisions):
             d = self.decisions[self.dpos]; self.dpos += 1
-            self.solver.add(cond if d else z3.Not(cond)); self.pc_len += 1
-            return d
-        t = self.feasible(cond)
-        if t:
-            f = self.feasible(z3.Not(cond))
-            if f:
-                self.pending.append(self.decisions[:self.dpos] + [False])
-            d = True
         else:
-            d = False    # pc is feasible by invariant, so the other side is
-        self.decisions.append(d); self.dpos += 1
+            t = self.feasible(cond)
+            if t:
+                f = self.feasible(z3.Not(cond))
+                if f:
+                    self.pending.append(self.decisions[:self.dpos] + [False])
+                d = True
+            else:
+                d = False    # pc is feasible by invariant, so the other side is
+            self.decisions.append(d); self.dpos += 1
         self.solver.add(cond if d else z3.Not(cond)); self.pc_len += 1
-        return d
+        self.known[key] = d
+        self.keep.append(cond)
+        return d != neg
 
     def choose(self, n, conds):
         """fork n-ways: conds[i] symbolic guards, returns the index taken."""
@@ -915,7 +923,7 @@ Exec.prog_const_cache = {}
 
 # ---------------------------------------------------------------------------------------- exploration
 
-def explore(h, entry, mk_args, post=None, pre=None, stats=None, max_paths=None, on_path=None, seed=0):
+def explore(h, entry, mk_args, post=None, pre=None, stats=None, max_paths=None, on_path=None, seed=0, base=None):
     """Run `entry` (MirFn or python callable(ex)->value) over all feasible paths.
 
     mk_args(ex) -> argument list (fresh values per path); pre(ex): assumptions added before the
@@ -926,6 +934,7 @@ def explore(h, entry, mk_args, post=None, pre=None, stats=None, max_paths=None, 
     solver = z3.Solver()
     solver.set('timeout', h.query_timeout_ms)
     if seed: solver.set('random_seed', seed)
+    for c in (base or []): solver.add(c)
     while pending:
         if max_paths and stats.paths >= max_paths:
             incon.append('path limit %d reached' % max_paths); break
